@@ -464,4 +464,78 @@ theorem parseVwscFile_wrapped (f : ScoreFile) (h : f.Valid) (w : Wrapper) (hw : 
   rw [e1, e2, pySlice_nat, hWP]
   exact slice_mid P S w.trailing _ _ rfl rfl
 
+theorem parseVwscFile_container (c : Container) (f : ScoreFile) (h : f.Valid) (hc : c.Valid (serialise f)) :
+    parseVwscFile (c.apply (serialise f)) = expectedFrames f.lay (zeros f.bufSize) f.recs := by
+  cases c with
+  | bare t => simp only [Container.apply]; rw [parseVwscFile_unwrapped f h t, parseVwsc_serialise f h]
+  | wrapped w => simp only [Container.apply]; rw [parseVwscFile_wrapped f h w hc, parseVwsc_serialise f h]
+
+/-! ### frame k -/
+
+theorem states_length (buf : Bytes) (recs : List Rec) : (states buf recs).length = recs.length := by
+  induction recs generalizing buf with
+  | nil => rfl
+  | cons r rs ih => simp [states, ih]
+
+theorem states_getElem? (buf : Bytes) (recs : List Rec) (k : Nat) (hk : k < recs.length) :
+    (states buf recs)[k]? = some (applyAll buf (recs.take (k + 1))) := by
+  induction recs generalizing buf k with
+  | nil => simp at hk
+  | cons r rs ih =>
+    cases k with
+    | zero => simp [states, applyAll]
+    | succ k =>
+      simp only [states, List.getElem?_cons_succ, List.take_succ_cons, applyAll, List.foldl_cons]
+      exact ih (applyRec buf r) k (by simpa using hk)
+
+theorem framesOf_getElem? (lay : Layout) (buf : Bytes) (recs : List Rec) (fs : List Frame) (h : framesOf lay buf recs = .ok fs)
+    (k : Nat) (hk : k < recs.length) :
+    ∃ f, fs[k]? = some f ∧ parseChannels lay (applyAll buf (recs.take (k + 1))) = .ok f := by
+  induction recs generalizing buf fs k with
+  | nil => simp at hk
+  | cons r rs ih =>
+    simp only [framesOf] at h
+    cases hp : parseChannels lay (applyRec buf r) with
+    | error e => simp [hp] at h
+    | ok f =>
+      simp only [hp] at h
+      cases hr : framesOf lay (applyRec buf r) rs with
+      | error e => simp [hr] at h
+      | ok fs' =>
+        simp only [hr, Except.ok.injEq] at h
+        subst h
+        cases k with
+        | zero => exact ⟨f, by simp, by simpa [applyAll] using hp⟩
+        | succ k =>
+          obtain ⟨g, hg1, hg2⟩ := ih (applyRec buf r) fs' hr k (by simpa using hk)
+          exact ⟨g, by simpa using hg1, by simpa [applyAll] using hg2⟩
+
+theorem framesOf_length (lay : Layout) (buf : Bytes) (recs : List Rec) (fs : List Frame) (h : framesOf lay buf recs = .ok fs) :
+    fs.length = recs.length := by
+  induction recs generalizing buf fs with
+  | nil => simp [framesOf] at h; subst h; rfl
+  | cons r rs ih =>
+    simp only [framesOf] at h
+    cases hp : parseChannels lay (applyRec buf r) with
+    | error e => simp [hp] at h
+    | ok f =>
+      simp only [hp] at h
+      cases hr : framesOf lay (applyRec buf r) rs with
+      | error e => simp [hr] at h
+      | ok fs' =>
+        simp only [hr, Except.ok.injEq] at h
+        subst h
+        simp [ih _ _ hr]
+
+/-- if every channel state decodes, the whole sequence decodes to the list of those results -/
+theorem framesOf_of_all_ok (lay : Layout) (buf : Bytes) (recs : List Rec) (g : Bytes → Frame)
+    (h : ∀ b ∈ states buf recs, parseChannels lay b = .ok (g b)) :
+    framesOf lay buf recs = .ok ((states buf recs).map g) := by
+  induction recs generalizing buf with
+  | nil => rfl
+  | cons r rs ih =>
+    simp only [states, List.mem_cons, forall_eq_or_imp] at h
+    simp only [framesOf, h.1, states, List.map_cons]
+    rw [ih _ h.2]
+
 end Drx.Vwsc
